@@ -15,7 +15,9 @@ PROP = "C07"
 LEVEL = "proof"
 THEOREMS = {"Proofs.Props.C07": ["MsPack.Cab.C07_written_le_declared", "MsPack.Cab.C07_ok_means_complete_partial",
                                  "MsPack.Cab.C07_count_law_stored", "MsPack.Oab.C07_oab_written_le_target",
-                                 "MsPack.Oab.C07_oab_patch_written_le_target"]}
+                                 "MsPack.Oab.C07_oab_patch_written_le_target"],
+            "Proofs.Props.C07Chm": ["MsPack.Chm.C07_chm_sec0_written_le", "MsPack.Chm.C07_chm_sec0_ok_complete", "MsPack.Chm.C03_chm_sec0_bytes",
+                                    "MsPack.Chm.C07_chm_open_extract_sec0", "MsPack.Chm.C07_chm_written_le"]}
 ASSUMPTIONS = ["the counting law (L1) and the read-error law of the MSZIP/Quantum/LZX decoders are hypotheses of the CAB theorems (proved for stored folders only); OAB: written <= TargetSize and OK => exactly TargetSize for every input, under the LZX counting law (stored blocks and copy_fh proved); CHM extraction has no theorem yet",
                "all of it is validated by the written-vs-declared oracle on the implementation and by model agreement"]
 RULE = ("every extract/decompress call of: well-formed generated archives (cab, chm, oab), 4-6 malformed variants of each, the shipped fixtures incl. crashers; "
